@@ -14,7 +14,7 @@ const SmallCount = 2*2 + 16*4 + 512*8
 
 var smallKW = []string{"properties", "items", "allOf", "anyOf", "oneOf", "not", "additionalProperties", "patternProperties", "dependencies", "additionalItems", "definitions", "itemsArr"}
 
-const smallOther = "file:///w/api/sub/b.json"
+const smallOther = "file://" + Prefix + "/api/sub/b.json"
 
 // Small builds the idx-th small topology (idx in [0, SmallCount)).
 func Small(idx int) *model.World {
